@@ -1,16 +1,16 @@
-// Package checks holds one entry point per property.
+// Package checks holds one entry point per property.  Every cNN.go registers itself in init().
 package checks
 
 import "verif/vf"
 
 // All maps a property id to its check.
-var All = map[string]func(*vf.Ctx){
-	"C08": C08,
-	"C19": C19,
-}
+var All = map[string]func(*vf.Ctx){}
 
 // Sub holds sub-process entry points.
 var Sub = map[string]func(args []string) int{}
+
+// SpecModules lists the root modules that setup parses.
+var SpecModules []string
 
 // SelfTest parses every specification module.
 func SelfTest() int {
@@ -23,6 +23,3 @@ func SelfTest() int {
 	}
 	return rc
 }
-
-// SpecModules lists the root modules that setup parses.
-var SpecModules = []string{"Codec", "Signal", "Chan"}
